@@ -45,7 +45,9 @@ JSON_MUTATIONS = [
     ("not-format-then-uninvertible", lambda rng: {"not": dict([("format", "email"), rng.choice([("uniqueItems", True), ("minProperties", 1), ("contentMediaType", "text/plain")])])}, True),
     ("not-uninvertible-then-format", lambda rng: {"not": dict([rng.choice([("uniqueItems", True), ("minProperties", 1)]), ("format", "email")])}, True),
     ("one-of-format-then-uninvertible", lambda rng: {"oneOf": [{"format": "date", "minProperties": 1}, {"type": "null"}]}, True),
-    ("contradictory-length", lambda rng: {"type": "string", "minLength": 3, "maxLength": 1}, False),
+    ("contradictory-length", lambda rng: {"type": "string", "minLength": 3, "maxLength": 1}, True),
+    # the length check of parse_string stands in front of the format dispatch: bounds no string can meet are refused whatever the format
+    ("contradictory-length-format", lambda rng: {"type": "string", "format": rng.choice(["date", "email", "uuid", "ipv4"]), "minLength": rng.choice([3, 10, 50]), "maxLength": rng.choice([0, 1, 2])}, True),
     ("contradictory-bounds", lambda rng: {"type": "number", "minimum": 5, "maximum": 1}, False),
     ("contradictory-items", lambda rng: {"type": "array", "minItems": 3, "maxItems": 1}, False),
     ("enum-array-member", lambda rng: {"enum": [[1, 2], "x"]}, False),
